@@ -211,8 +211,10 @@ def monitor(case, out):
         src = op[3] % 4
         where = 'request %d (%s/%s, source %d)' % (i, 'd%d' % (op[1] % 8), NAMES[op[2] % 3], src)
         if not cur:
-            if res != b'panic':
-                vs.append('%s: nothing at the path, yet the server answered %s' % (where, res.decode()))
+            # the property is silent about HOW a request for a path holding nothing is turned down;
+            # it only must not be answered with somebody's object
+            if res in (b'hit', b'miss'):
+                vs.append('%s: nothing at the path, yet the server handed back an object (%s, producer %d)' % (where, res.decode(), prod))
             continue
         b = cur[0]
         if res in (b'hit', b'miss'):
@@ -225,9 +227,10 @@ def monitor(case, out):
                 vs.append('%s: cache hit for binary %d which never compiled this source in this history' % (where, b))
             served[(b, src)] = True
         elif b < 100:
+            # proved as part of C12_identity_is_current (a working compiler at the path is always served, keyed on
+            # its own identity): e.g. the pre-fix shared entry made such requests fail once the other link was removed
             vs.append('%s: a working compiler (binary %d) is at the path but the request ended in %s' % (where, b, res.decode()))
-        elif res != b'unsupported':
-            vs.append('%s: binary %d is not a compiler but the request ended in %s' % (where, b, res.decode()))
+        # a non-compiler at the path: how it is turned down (unsupported / fail) is not the property's business
     return vs
 
 
